@@ -72,3 +72,10 @@ claim(
     design_ref="DESIGN.md section 4 C14",
     engine="enumeration",
 )
+claim(
+    "C04",
+    technique="Hypothesis over continuous hyper-parameter ranges; deterministic Simpson quadrature (elementwise ops) and fixed-seed 2^20-element Monte-Carlo (softmax, attention, cross-entropy, norms) against the bands of the statement",
+    text="Generated-input search: the output standard deviation / RMS and gradient RMS of each nonlinear op are evaluated under N(0,1) inputs and upstream gradients for grid, end-point and log-uniform hyper-parameters and compared with the bands in the statement; the uniform-logit cross-entropy gradient is checked to be exactly 1.",
+    note="Band oracle: regressions inside the band are by definition not violations; quadrature convergence is self-checked (2^17 vs 2^15 points).",
+    design_ref="DESIGN.md section 4 C04",
+)
